@@ -1,7 +1,7 @@
 #!/bin/bash
 # usage: lib/regress_seeded.sh [repo] [parallel]  - re-runs the quick check of the owning property on every seeded
 # change (scratch worktree of <repo> with patch.diff applied, VERIF_REPO), one lane per property, <parallel> lanes
-# at a time; prints one line per seeded change: name property violation_lines summary
+# at a time; prints one line per seeded change: name property violation_lines summary.  ONLY="name name" restricts the run.
 cd "$(dirname "$(readlink -f "$0")")/.."
 REPO=${1:-/repo}
 PAR=${2:-5}
@@ -12,6 +12,7 @@ lane() {
   for d in seeded/*/; do
     name=$(basename $d)
     case $name in harmless-*) continue;; esac
+    if [ -n "${ONLY:-}" ]; then case " $ONLY " in *" $name "*) ;; *) continue;; esac; fi
     [ -f $d/meta.json ] || continue
     br=$(python3 -c "import json,sys; print(json.load(open('$d/meta.json')).get('breaks',''))")
     [ "$br" = "$p" ] || continue
@@ -28,5 +29,5 @@ lane() {
   done
 }
 export -f lane
-export REPO
+export REPO ONLY
 printf "%s\n" C01 C02 C03 C04 C05 C06 C07 C08 C09 C10 C11 C12 C13 C14 C15 C16 C17 C18 C19 C20 | xargs -P $PAR -I{} bash -c 'lane {}'
